@@ -83,6 +83,15 @@ CHECKS = {
           "block, and key generators return exactly the requested bytes. The tie installs a scripted source through randombytes_set_implementation, logs every request size, and runs all 27 *_keygen, the "
           "keypair generators, secretstream init_push, box_seal and the core random point/scalar functions on scripts with every consumed byte perturbed."),
     note=NOTE_COMMON + "outputs of key-pair / point generators are compared against the executable X25519 / Ed25519 / Elligator / Ristretto specifications (translation validation)."),
+ "C17": dict(
+    category="proof", design_ref="DESIGN.md §3.17",
+    technique="Lean 4 theorems on the 64-bit layout arithmetic (page rounding, end alignment, canary adjacency, base recovery, overflow guards) and the protection state machine over all histories + system-call-log and fork/probe correspondence",
+    text=("_sodium_malloc / sodium_allocarray / sodium_free / sodium_mprotect_* are modelled with size_t = UInt64 and the page size a parameter, recording the mmap/mprotect/mlock/munmap calls. Lean proves for every "
+          "request size and every power-of-two page size: the user region ends exactly at the trailing PROT_NONE page, the canary sits immediately before it inside the read-write area, the mapping base is "
+          "recovered from the user pointer, no size_t expression wraps, oversize requests and overflowing count*size fail with ENOMEM; and for every history of protection requests the user pages carry the last "
+          "requested protection while guard and header pages never change; free first makes the mapping read-write. The tie logs the real system calls (link-time wrappers) for every size 0..3 pages+1 and compares "
+          "them, the user offset, fill and canary with the model; forked children probe the byte past the end, each canary byte, and all 120 protection histories of length <= 4 with read, write and free probes."),
+    note=NOTE_COMMON + "kernel page-fault behaviour and raise()/abort() are observed, not proved; page size 4096 on this host."),
 }
 
 NOT_YET = {}
